@@ -1,0 +1,52 @@
+//go:build verif
+
+package parser
+
+import "github.com/ozanh/ugo/internal/verifrt"
+
+// Specification vocabulary for the //@ contracts in verif_contracts.go.
+
+// sortedInts: a is sorted (non-decreasing).
+func sortedInts(a []int) bool {
+	return verifrt.Forall2(func(i, j int) bool {
+		return !(0 <= i && i < j && j < len(a)) || a[i] <= a[j]
+	})
+}
+
+// validLines: the line table of a source file: first line starts at offset
+// 0, offsets strictly increase and lie inside the file.
+func validLines(lines []int, size int) bool {
+	return len(lines) >= 1 && lines[0] == 0 && len(lines) < 1<<40 &&
+		verifrt.Forall2(func(i, j int) bool {
+			return !(0 <= i && i < j && j < len(lines)) || lines[i] < lines[j]
+		}) &&
+		verifrt.Forall(func(i int) bool {
+			return !(1 <= i && i < len(lines)) || lines[i] < size
+		})
+}
+
+// validFile: representation invariant of *SourceFile.
+func validFile(f *SourceFile) bool {
+	return f != nil && f.Base >= 1 && f.Size >= 0 && f.Base < 1<<40 && f.Size < 1<<40 && validLines(f.Lines, f.Size)
+}
+
+// sortedFiles: files are non-nil, valid, ordered by Base with disjoint ranges.
+func sortedFiles(a []*SourceFile) bool {
+	return len(a) < 1<<40 &&
+		verifrt.Forall(func(i int) bool {
+			return !(0 <= i && i < len(a)) || validFile(a[i])
+		}) &&
+		verifrt.Forall2(func(i, j int) bool {
+			return !(0 <= i && i < j && j < len(a)) || a[i].Base+a[i].Size < a[j].Base
+		})
+}
+
+// validFileSet: representation invariant of *SourceFileSet.
+func validFileSet(s *SourceFileSet) bool {
+	return s != nil && sortedFiles(s.Files) && (s.LastFile == nil || validFile(s.LastFile))
+}
+
+// inFile: position p lies inside the text of f (EOF position included).
+func inFile(f *SourceFile, p Pos) bool {
+	return f.Base <= int(p) && int(p) <= f.Base+f.Size
+}
